@@ -166,7 +166,8 @@ def _case(draw):
         prev = c
     groups = [g for g in groups if g]
     colocate = draw(st.booleans())
-    return {'kind': 'gen', 'work': work, 'groups': groups, 'world': world, 'colocate': colocate}
+    return {'kind': 'gen', 'work': work, 'groups': groups, 'world': world, 'colocate': colocate,
+            'cost_type': draw(st.sampled_from(['python', 'python', 'python', 'numpy', 'torch']))}
 
 
 def _to_work(pairs):
@@ -185,7 +186,7 @@ class C17(Prop):
             'inner placements counted in inner_evaluations). Plus one cross-process case: 40 seeded inputs evaluated in 3 '
             'subprocesses with different PYTHONHASHSEED must give identical results. Non-trivial (generated): >=2 groups, >=3 layers '
             'and a tie among layer totals or factor costs; (small scope): >= 2 layers with a tie.')
-    assumptions = ['costs are non-negative and exactly summable (ints, dyadic floats)',
+    assumptions = ['costs are non-negative and exactly summable (ints, dyadic floats); a fifth of the drawn dictionaries are handed over as numpy or torch scalars - if the implementation accepts them (no TypeError) the placement must be valid for their values',
                    'worker groups are disjoint, non-empty lists of ranks < world_size']
     examples = {'quick': 1500, 'thorough': 6000}
     shards = {'quick': 4, 'thorough': 16}
@@ -216,32 +217,48 @@ class C17(Prop):
     # ------------------------------------------------------------------
     def run_case(self, case):
         if case['kind'] == 'gen':
-            return self._one(_to_work(case['work']), case['groups'], case['world'], case['colocate'], 'gen')
+            return self._one(_to_work(case['work']), case['groups'], case['world'], case['colocate'], 'gen', case.get('cost_type', 'python'))
         if case['kind'] == 'small':
             return self._small(case)
         return self._hashseed(case)
 
-    def _one(self, work, groups, world, colocate, kind):
+    def _one(self, work, groups, world, colocate, kind, cost_type='python'):
         from kfac.assignment import KAISAAssignment
+        plain = work
+        if cost_type != 'python':
+            # the same numbers handed over as numpy / torch scalars (what a caller computing costs from tensor shapes or timings
+            # may pass); if such numbers are accepted the result must be a valid greedy placement for their values
+            if cost_type == 'numpy':
+                import numpy as np
+                conv = lambda c: np.float64(c) if isinstance(c, float) else np.int64(c)
+            else:
+                import torch
+                conv = lambda c: torch.tensor(float(c), dtype=torch.float64)
+            work = {n: {f: conv(c) for f, c in fs.items()} for n, fs in plain.items()}
         w0, g0 = copy.deepcopy(work), copy.deepcopy(groups)
         try:
             res = KAISAAssignment.greedy_assignment(work, groups, world, colocate)
             res2 = KAISAAssignment.greedy_assignment(work, groups, world, colocate)
+        except TypeError as e:
+            if cost_type != 'python':
+                return passed(False, {'kind': kind, 'nontrivial': False, 'cost_type': cost_type, 'unsupported_cost_type': True})
+            return violation(f'greedy_assignment raised {type(e).__name__}: {e} on work={work} groups={groups} world={world} colocate={colocate}', 'exception')
         except Exception as e:  # valid input by construction: must not fail
             return violation(f'greedy_assignment raised {type(e).__name__}: {e} on work={work} groups={groups} world={world} colocate={colocate}', 'exception')
         if work != w0 or groups != g0 or list(work) != list(w0) or any(list(work[k]) != list(w0[k]) for k in work):
             return violation('greedy_assignment mutated its arguments', 'mutated-args')
         if res != res2:
             return violation(f'two calls with equal arguments differ: {res} vs {res2}', 'impure')
+        work = plain
         bad = check_assignment(work, groups, world, colocate, res)
         if bad:
-            return violation(f'{bad[1]} :: work={work} groups={groups} world={world} colocate={colocate} result={res}', bad[0])
+            return violation(f'{bad[1]} :: work={work} (costs passed as {cost_type} numbers) groups={groups} world={world} colocate={colocate} result={res}', bad[0])
         totals = [sum(f.values()) for f in work.values()]
         fcosts = [c for f in work.values() for c in f.values()]
         tie = len(set(totals)) < len(totals) or len(set(fcosts)) < len(fcosts)
         nt = len(groups) >= 2 and len(work) >= 3 and tie
         return passed(nt, {'kind': kind, 'nontrivial': nt, 'colocate': colocate, 'ngroups': len(groups),
-                           'nlayers': min(len(work), 12)})
+                           'nlayers': min(len(work), 12), 'cost_type': cost_type})
 
     def _small(self, case):
         costs = case['costs']
